@@ -25,6 +25,13 @@ OPS = ["set_param", "inplace_param", "set_transform", "inplace_transform", "set_
 READS = ["vertices", "faces", "volume", "area", "bounds", "face_normals", "moment_inertia", "is_watertight", "center_mass", "triangles"]
 SHELL = [(0, 0), (2, 0), (2.3, 1.2), (1, 2), (-0.2, 1)]
 HOLES = [[(0.6, 0.5), (1.2, 0.5), (1.0, 1.1)], [(1.4, 1.0), (1.8, 1.0), (1.6, 1.3)]]
+# the outline at several sizes: coordinates that are short decimals, and coordinates that need every digit of a double
+PSCALES = [1.0, 1.0, 0.7312345678901, 12.3456789012345]
+
+
+def outline(m):
+    k = float(m.get("pscale", 1.0))
+    return [(x * k, y * k) for x, y in SHELL], [[(x * k, y * k) for x, y in hh] for hh in HOLES[: m["holes"]]]
 
 
 def poly_area(pts):
@@ -60,7 +67,7 @@ def construct(kind, m, src=None):
         return P.Capsule(radius=m["radius"], height=m["height"], transform=T, sections=m["sections"])
     from shapely.geometry import Polygon
 
-    return P.Extrusion(polygon=Polygon(SHELL, HOLES[: m["holes"]]), height=m["height"], transform=T)
+    return P.Extrusion(polygon=Polygon(*outline(m)), height=m["height"], transform=T)
 
 
 class C15(World):
@@ -94,7 +101,7 @@ class C15(World):
     def generate(self, rng, cfg):
         kind = cfg["kind"]
         m = {"radius": round(rng.uniform(0.3, 2.5), 3), "height": round(rng.uniform(0.4, 4.0), 3), "extents": [round(rng.uniform(0.4, 3.0), 3) for _ in range(3)],
-             "sections": rng.choice([3, 4, 5, 8, 32]), "subdivisions": rng.choice([0, 1, 2, 3]), "holes": rng.choice([0, 1, 2]),
+             "sections": rng.choice([3, 4, 5, 8, 32]), "subdivisions": rng.choice([0, 1, 2, 3]), "holes": rng.choice([0, 1, 2]), "pscale": rng.choice(PSCALES),
              "transform": (mx.make(rng, rng.choice(["identity", "identity", "translation", "rigid", "rigid"]))).tolist()}
         if kind == "Extrusion" and rng.random() < 0.25:
             m["height"] = -m["height"]  # an extrusion may run against its axis
@@ -103,6 +110,11 @@ class C15(World):
             k = pick(rng, cfg["weights"])
             op = {"op": k, "rs": rng.randrange(2**31), "which": rng.randrange(6), "f": round(rng.choice([rng.uniform(0.4, 0.8), rng.uniform(1.3, 2.5)]), 3), "i": rng.randrange(3),
                   "silent": rng.random() < 0.25}
+            if k in ("set_param", "apply_translation", "apply_scale") and rng.random() < 0.2:
+                # fine tuning: a few parts per million (far above rounding, far below what a loose comparison tells apart)
+                op["f"] = 1.0 + 4e-6
+                if k == "apply_translation":
+                    op["fine"] = True
             if k in ("apply_transform", "set_transform", "bad_transform", "mirror_transform"):
                 cls = {"apply_transform": rng.choice(["rigid", "translation", "uniform_scale", "similarity"]), "set_transform": "rigid", "bad_transform": rng.choice(["aniso", "shear"]), "mirror_transform": rng.choice(["mirror", "rot_mirror"])}[k]
                 op["cls"], op["matrix"] = cls, mx.make(rng, cls).tolist()
@@ -114,7 +126,8 @@ class C15(World):
             if k == "read":
                 op["names"] = rng.sample(READS, rng.randint(1, 4))
             if k == "copy":
-                op["route"] = rng.choice(["copy", "copy.copy", "copy.deepcopy"])
+                op["route"] = rng.choice(["copy", "copy.copy", "copy.deepcopy", "copy_novisual", "copy_resolution"])
+                op["n"] = rng.choice([3, 4, 6, 16])
             ops.append(op)
         return {"config": cfg, "ops": ops}
 
@@ -189,7 +202,7 @@ class C15(World):
             return P.Capsule(radius=m["radius"], height=m["height"], sections=m["sections"])
         from shapely.geometry import Polygon
 
-        return P.Extrusion(polygon=Polygon(SHELL, HOLES[: m["holes"]]), height=m["height"])
+        return P.Extrusion(polygon=Polygon(*outline(m)), height=m["height"])
 
     @staticmethod
     def _ctor_keys(kind):
@@ -229,8 +242,20 @@ class C15(World):
             if not mutable:
                 # whether a copy of a frozen primitive is frozen is not something the statement speaks about
                 raise Inapplicable()
-            q = p.copy() if op["route"] == "copy" else (pycopy.copy(p) if op["route"] == "copy.copy" else pycopy.deepcopy(p))
-            return (q, op["route"])
+            route = op["route"]
+            if route == "copy_novisual":
+                q = p.copy(include_visual=False)
+            elif route == "copy_resolution":
+                # documented: constructor arguments outside the export schema (sections / subdivisions) may be given to copy()
+                key = {"Sphere": "subdivisions", "Cylinder": "sections", "Capsule": "sections"}.get(kind)
+                if key is None:
+                    raise Inapplicable()
+                n = op.get("n", 4) if key == "sections" else op.get("n", 4) % 4
+                q = p.copy(**{key: n})
+                m[key] = n
+            else:
+                q = p.copy() if route == "copy" else (pycopy.copy(p) if route == "copy.copy" else pycopy.deepcopy(p))
+            return (q, route)
         if k == "bad_attribute":
             ctx.count("fault:bad_attribute")
             out = self._expect_raise(lambda: setattr(prim, "no_such_parameter", 3.0), ctx, k)
@@ -374,7 +399,9 @@ class C15(World):
             if k == "apply_transform":
                 M = np.array(op["matrix"])
             elif k == "apply_translation":
-                M = mx.hom(None, op["vec"])
+                # a nudge: parts per million of where the primitive stands
+                vec = op["vec"] if not op.get("fine") else (np.array(m["transform"])[:3, 3] * 4e-6 + np.array([3e-6, 0, 0])).tolist()
+                M = mx.hom(None, vec)
             else:
                 M = mx.hom(np.eye(3) * f, None)
             s = mx.similarity_factor(M)
@@ -388,7 +415,7 @@ class C15(World):
             if k == "apply_transform":
                 p.apply_transform(M)
             elif k == "apply_translation":
-                p.apply_translation(op["vec"])
+                p.apply_translation(vec)
             else:
                 p.apply_scale(f)
             T = np.array(m["transform"])
@@ -495,8 +522,13 @@ class C15(World):
             if not (0.5 * smooth < mesh_vol <= smooth * (1 + 1e-9)):
                 fail("inscribed", f"capsule mesh volume {mesh_vol} vs smooth {smooth}")
         else:
-            A = poly_area(SHELL) - sum(poly_area(hh) for hh in HOLES[: m["holes"]])
-            per = poly_perimeter(SHELL) + sum(poly_perimeter(hh) for hh in HOLES[: m["holes"]])
+            shell_, holes_ = outline(m)
+            A = poly_area(shell_) - sum(poly_area(hh) for hh in holes_)
+            per = poly_perimeter(shell_) + sum(poly_perimeter(hh) for hh in holes_)
+            # the outline the primitive reports is the outline it was given (through every copy and export route)
+            got_xy = np.asarray(p.primitive.polygon.exterior.coords)[:-1]
+            if got_xy.shape != (len(shell_), 2) or np.abs(got_xy - np.asarray(shell_)).max() > 1e-12 * (1 + abs(m.get("pscale", 1.0))):
+                fail("polygon", "the polygon of the extrusion is not the polygon it was given")
             if np.minimum(np.abs(L[:, 2]), np.abs(L[:, 2] - h)).max() > tol:
                 fail("surface", "extrusion vertices are not on the two cap planes")
             if same(mesh_vol, A * abs(h), 1e-9, "v") or same(float(p.volume), A * abs(h), 1e-9, "v"):
